@@ -37,7 +37,7 @@ ASSUMPTIONS = [
     "leniently decodable key strings (embedded newlines/garbage, stripped padding) are recorded, not judged",
 ]
 BUDGET_S = {"quick": 300, "thorough": 3000}
-MIN_EVALS = {"quick": 4000, "thorough": 60000}
+MIN_EVALS = {"quick": 8000, "thorough": 60000}
 
 PLACEMENTS = ("separate", "one", "fault+rest", "prev+fault")
 
@@ -107,6 +107,10 @@ def judge(ctx: Ctx, label: str, pos_class: str, placement: str, exp: Exp, msgs: 
             elif type(d.ready_exc) is not type(first):
                 v("ready-different-class", f"ready_future failed with {type(d.ready_exc).__name__}, connection saw {outcome}")
     else:
+        # whatever the class of the deviation: nothing that FOLLOWS it may be delivered (the hello name is unauthenticated free text -
+        # with no expected name configured a changed name is not a deviation the client could know about)
+        if not pos_class.endswith("hello-name") and len(got) > exp.n_before:
+            v("delivered-after-deviation", f"{len(got)} messages delivered, only {exp.n_before} precede the deviation")
         if first is not None and not isinstance(first, core.APIConnectionError):
             res.count(f"raw-exception-reported/{type(first).__name__}")
     if t.writes_after_close:
@@ -328,7 +332,24 @@ def key_cases(ctx: Ctx) -> None:
             res.sig("key-malformed", n)
         except Exception as e:  # noqa: BLE001
             res.violation("C04/key/wrong-exception", f"malformed key: construction raised {e!r}", {"key": s})
+    # strings that cannot be base64 of anything because they contain characters outside ASCII (copy/paste artefacts: NBSP, zero-width
+    # space, BOM, fullwidth or look-alike symbols) - alone, or glued to an otherwise valid key
     good = base64.b64encode(os.urandom(32)).decode()
+    weird = ["\u00a0", "\u200b", "\ufeff", "\uff0b", "\u2215", "\uff1d", "\u00e9", "\U0001f511"]
+    nonascii = []
+    for w in weird:
+        nonascii += [good + w, w + good, good[:11] + w + good[11:], good[:-1] + w, w, w * 44]
+    nonascii += [good.replace("A", "\u0410", 1) if "A" in good else "\u0410" + good[1:], "".join(chr(0xFF00 + ord(ch) - 0x20) if "!" <= ch <= "~" else ch for ch in good)]
+    for s in nonascii:
+        res.evaluations += 1
+        res.count("keys/non-ascii")
+        try:
+            h, c, t, d = wire.make_noise(s, None)
+            res.violation("C04/key/invalid-accepted", f"key string with non-ASCII characters accepted: {s!r}", {"key": s})
+        except InvalidEncryptionKeyAPIError:
+            res.sig("key-nonascii", len(s), s[:1] == good[:1], s[-1:] == good[-1:])
+        except Exception as e:  # noqa: BLE001
+            res.violation("C04/key/wrong-exception", f"non-ASCII key {s!r}: construction raised {e!r}", {"key": s})
     for label, s in (("embedded-newline", good[:20] + "\n" + good[20:]), ("stripped-padding", good.rstrip("=")),
                      ("leading-space", " " + good), ("garbage-char", good[:10] + "!" + good[10:]), ("urlsafe", good.replace("+", "-").replace("/", "_"))):
         try:
@@ -347,7 +368,10 @@ def shard(ctx: Ctx) -> None:
         [],
         [(25, b"\x0d\x01\x00\x00\x00")],
         [(25, b"\x0d\x01\x00\x00\x00"), (7, b""), (29, os.urandom(40))],
+        [(25, b"\x0d\x01\x00\x00\x00"), (26, os.urandom(7)), (7, b""), (33, os.urandom(300)), (8, b"")],
     ]
+    if ctx.thorough:
+        baselines.append([(n + 20, os.urandom(n * 9 % 61)) for n in range(8)])
     name = b"dev"
     hello_len = 3 + 1 + len(name) + 1
     flips_per_pos = 8 if ctx.thorough else 1
@@ -357,11 +381,16 @@ def shard(ctx: Ctx) -> None:
         for fi, flen in enumerate(lens):
             for pos in range(flen):
                 variants: list[tuple[str, Any]] = []
-                bits = range(8) if ctx.thorough else rng.sample(range(8), 2)
+                # every bit of every header byte (marker, length, selector / indicator, first ciphertext bytes); sampled bits elsewhere
+                bits = range(8) if (ctx.thorough or pos < 8) else rng.sample(range(8), 3)
                 for b in bits:
                     variants.append((f"bitflip", (lambda old, b=b: old ^ (1 << b))))
-                rb = rng.randrange(256)
-                variants.append(("replace", (lambda old, rb=rb: rb if rb != old else (old + 1) & 0xFF)))
+                for _ in range(4 if ctx.thorough else 1):
+                    rb = rng.randrange(256)
+                    variants.append(("replace", (lambda old, rb=rb: rb if rb != old else (old + 1) & 0xFF)))
+                if pos == 3:
+                    for rb in (0x01, 0x02, 0x7F, 0x80, 0xFF):
+                        variants.append(("replace", (lambda old, rb=rb: rb if rb != old else (old + 1) & 0xFF)))
                 for vi, (vl, fn) in enumerate(variants):
                     for pi, placement in enumerate(PLACEMENTS):
                         idx += 1
